@@ -157,6 +157,10 @@ def gen(rng, tier):
         for i in range(0, min(len(ws), 12) + 1):             # error / Ok(0) at the i-th poll_write
             cases.append(case(d, r=r, w=ws[:i] + ["f"]))
             cases.append(case(d, r=r, w=ws[:i] + [0]))
+            # an error of another kind (Interrupted, TimedOut) right after a short write: no retry, no restart of the chunk
+            cases.append(case(d, r=r, w=ws[:i] + [rng.choice([1, 2, 3]), rng.choice(["i", "t"]), 100000]))
+        for i in range(0, min(len(r), 6) + 1):               # a source error of another kind before / between pieces
+            cases.append(case(d, r=r[:i] + [rng.choice(["i", "t"])] + r[i:], w=rng.choice([[], [1] * 20])))
     for _ in range(60 if quick else 800):                    # larger: around every chunk boundary
         n = rng.choice([rng.randint(100, 5000), rng.randint(60000, 140000)])
         r = rsched(n)
@@ -189,9 +193,9 @@ def classify(c, model):
     n = _dlen(d)
     size = "0" if n == 0 else "<=600" if n <= 600 else "<=65528" if n <= PIECE_MAX else "<=200k" if n <= 200000 else ">200k"
     feats = []
-    if "f" in r: feats.append("rerr")
+    if "f" in r or "i" in r or "t" in r: feats.append("rerr")
     if "0" in r: feats.append("r0")
-    if "f" in w: feats.append("wfail")
+    if "f" in w or "i" in w or "t" in w: feats.append("wfail")
     if "0" in w: feats.append("w0")
     if b != "-": feats.append("budget")
     if w and all(x == "1" for x in w): feats.append("w1")
